@@ -481,6 +481,12 @@ def correspond(ctx, res, jobs, results):
                 res.disagreements.append(dict(facet='listing_history', case=case, model=d[0], impl=d[1]))
 
 
+def translate(ctx):
+    """regenerate lean/PyTough/Gen/ListingBind.lean (per-simulator method binding) from the current /repo source"""
+    from translate import listing_bind
+    listing_bind.run()
+
+
 def run(ctx):
     res = Result()
     res.rule = ('cases = history() calls: per shipped listing every non-empty subset of its tables in a random order (one item per table: '
